@@ -113,6 +113,8 @@ pub struct Slot {
     pub c_stopped: bool,
     pub c_ff: bool,
     pub ops_since_fault: u32,
+    /// a Rust constraint rejected a commit earlier (known finding F8: the token may have been partly consumed)
+    pub rejected_commit: bool,
 }
 
 #[derive(Default, Clone, Debug, Serialize)]
@@ -239,6 +241,8 @@ pub struct Exec<'a> {
     /// per constraint slot: (grammar bytes that were moved into the returned prompt, healed prompt bytes)
     pub prompt_grm_bytes: HashMap<SlotId, (Vec<u8>, usize)>,
     pub keep_alive: Vec<Box<std::sync::atomic::AtomicU32>>,
+    /// did the injected fuel fault fire during the current operation?
+    pub fuel_fired: bool,
 }
 
 pub type VResult<T> = std::result::Result<T, Violation>;
@@ -257,6 +261,7 @@ impl<'a> Exec<'a> {
             protos: HashMap::new(),
             prompt_grm_bytes: HashMap::new(),
             keep_alive: vec![],
+            fuel_fired: false,
         }
     }
 
@@ -344,6 +349,7 @@ impl<'a> Exec<'a> {
             c_stopped: false,
             c_ff: false,
             ops_since_fault: 0,
+            rejected_commit: false,
         }
     }
 
@@ -586,6 +592,28 @@ impl<'a> Exec<'a> {
         Ok(())
     }
 
+    /// The handle may have latched an error during a call whose API swallows errors
+    /// (compute_ff_tokens / compute_ff_bytes return empty results): bring the model up to date.
+    pub fn sync_failed(&mut self, h: SlotId) -> VResult<()> {
+        let msg = match self.slots.get_mut(&h) {
+            Some(s) if s.failed.is_none() => match &mut s.h {
+                H::M(m) => {
+                    if m.is_error() {
+                        m.get_error()
+                    } else {
+                        None
+                    }
+                }
+                _ => None,
+            },
+            _ => None,
+        };
+        if let Some(m) = msg {
+            self.on_matcher_err(h, "latent", &m, true)?;
+        }
+        Ok(())
+    }
+
     // ------------------------------------------------------------- running
 
     pub fn run_ops(&mut self, ops: &[Op], sched: Option<&Arc<sched::Sched>>) -> VResult<()> {
@@ -629,6 +657,19 @@ impl<'a> Exec<'a> {
     }
 
     pub fn exec(&mut self, op: &Op) -> VResult<()> {
+        for h in crate::run::op_slots(op) {
+            self.sync_failed(h)?;
+        }
+        let r = self.exec_inner(op);
+        if r.is_ok() {
+            for h in crate::run::op_slots(op) {
+                self.sync_failed(h)?;
+            }
+        }
+        r
+    }
+
+    fn exec_inner(&mut self, op: &Op) -> VResult<()> {
         match op {
             Op::New { h, kind, alt } => self.op_new(*h, kind, *alt),
             Op::Clone { src, dst, deep } => self.op_clone(*src, *dst, *deep),
@@ -784,6 +825,7 @@ impl<'a> Exec<'a> {
             c_stopped: s.c_stopped,
             c_ff: s.c_ff,
             ops_since_fault: 0,
+            rejected_commit: s.rejected_commit,
         };
         let mut ns = ns;
         if ns.failed.is_none() {
@@ -820,11 +862,13 @@ impl<'a> Exec<'a> {
             let r = f(self);
             sched::FUEL_FAULT.with(|x| x.set(None));
             let fired1 = sched::FUEL_FAULT_FIRED.with(|x| x.get());
+            self.fuel_fired = fired1 > fired0;
             if fired1 > fired0 {
                 self.stats.fault("fuel_exhausted_mid_operation");
             }
             r
         } else {
+            self.fuel_fired = false;
             f(self)
         }
     }
@@ -877,6 +921,10 @@ impl<'a> Exec<'a> {
                     }
                 } else {
                     self.check_mask_range(h, &m)?;
+                }
+                if self.keep_log {
+                    let b = set_bits(&m);
+                    self.log.push(format!("      mask bits n={} {:?}", b.len(), &b[..b.len().min(16)]));
                 }
                 self.ev(format!("mask h{h} {:016x}", hash_words(&m)));
                 let s = self.slots.get_mut(&h).unwrap();
@@ -1209,7 +1257,15 @@ impl<'a> Exec<'a> {
             }
             Err(e) => {
                 // legal iff the handle is live and the tokens were honestly sampled from its masks
-                let legal = honest && !failed && !stopped;
+                // (and fuel did not run out in the middle of this very operation: the lexer then
+                // reports dead transitions, which surface as "byte fails parse")
+                // Tight limits (fault-injecting class): fuel left over from the previous mask can run
+                // out inside a commit; the message is the same "byte fails parse".
+                let tight = !self.fault_free() && !self.ctx.sc.world.limits.is_default();
+                if tight && honest && !failed && !stopped {
+                    self.stats.probe("commit_failed_under_tight_limits");
+                }
+                let legal = honest && !failed && !stopped && !self.fuel_fired && !tight;
                 if legal && self.fault_free() {
                     let cls = classify_err(&e.to_string());
                     if cls == ErrClass::Misuse {
